@@ -86,7 +86,7 @@ def gen_world(w, n_membranes=(2, 4), small=False):
             for j in range(w.choice([2, 3]) if (two or ea is None) else 1):
                 pk = wg.logu(w, 1e-4, 5e-2) * (1.0 + 0.35 * j)
                 pv_ = [float("%.9g" % wg.kg_to_units(pk, cu, mw_r)), cu] if (cu and mw_r) else [pk, None]
-                exps.append({"T": round(t0 + 12.0 * j, 2), "component": r, "permeance": pv_, "ea": ea})
+                exps.append({"T": round(t0 + 12.0 * j, 2), "component": dict(r), "permeance": pv_, "ea": ea})
         if w.random() < 0.4:
             w.shuffle(exps)                            # not sorted by temperature / component
         membranes.append({"dir": "m%d" % len(membranes), "constructed": True, "experiments": exps, "mixture_ref": {"custom": mx},
@@ -921,7 +921,8 @@ def _walk_refs(v, fn):
 
 def prune_world(plan):
     import copy as _copy
-    p = _copy.deepcopy(plan)
+    import json as _json
+    p = _json.loads(_json.dumps(plan))      # a JSON round trip also breaks aliasing between reference dicts
     spec = p["world"]
     need = {k: set() for k in POOLS}
 
